@@ -42,7 +42,7 @@ std::uint64_t Now() { return yaclib::fault::Scheduler::GetScheduler()->GetTimeNs
 std::string At() { return " @" + std::to_string(Now()); }
 
 struct Op {
-  std::string k;  // L T U F FU | LS TS US FS | W WF WU WP WPF SF N1 NA | S | J E | P G PQ C GQ GL
+  std::string k;  // L T U F FU | LS TS US FS | W WF WU WP WPF SF N1 NA | S | J E | VS VG VC (thread-local)
   long a = 0;
 };
 
@@ -51,6 +51,7 @@ struct Scenario {
   std::vector<std::vector<Op>> progs;
   std::string Header() const {
     std::string h = "fibersync prim=" + prim;
+    if (prim == "tls") h += " tlsinit=-1,-1,-1,-1,7,6";  // initialisers of the thread-local variables (see gTls*)
     for (std::size_t i = 0; i < progs.size(); ++i) {
       h += " f" + std::to_string(i) + "=";
       if (progs[i].empty()) h += "-";
@@ -58,7 +59,7 @@ struct Scenario {
         h += (j ? "," : "") + progs[i][j].k;
         if (progs[i][j].a != 0 || progs[i][j].k == "F" || progs[i][j].k == "FS" || progs[i][j].k == "FU" ||
             progs[i][j].k == "S" || progs[i][j].k == "WF" || progs[i][j].k == "WU" || progs[i][j].k == "WPF" || progs[i][j].k == "J" ||
-            progs[i][j].k == "P" || progs[i][j].k == "PQ")
+            progs[i][j].k == "VS" || progs[i][j].k == "VC")
           h += std::to_string(progs[i][j].a);
       }
     }
@@ -197,9 +198,48 @@ struct PeekS : yaclib::detail::fiber::SharedMutex {
 
 // ------------------------------------------------------------------------------------------------ execution
 static int gSlots[8];
-static YACLIB_THREAD_LOCAL_PTR(int) gTlsP;
-static YACLIB_THREAD_LOCAL_PTR(int) gTlsQ;
-static YACLIB_THREAD_LOCAL_PTR(long) gTlsL;  // a thread-local pointer of another type, never assigned
+// the thread-local variables, numbered in declaration order (= their slot indices with the one global counter)
+constexpr int kTlsVars = 6;
+constexpr int kTlsInit[kTlsVars] = {-1, -1, -1, -1, 7, 6};  // -1 = declared without initialiser
+static YACLIB_THREAD_LOCAL_PTR(int) gTlsP;                   // 0
+static YACLIB_THREAD_LOCAL_PTR(int) gTlsQ;                   // 1
+static YACLIB_THREAD_LOCAL_PTR(long) gTlsL;                  // 2: another pointee type
+static YACLIB_THREAD_LOCAL_PTR(int) gTlsN;                   // 3
+static YACLIB_THREAD_LOCAL_PTR(int) gTlsI{&gSlots[7]};       // 4: `thread_local int* i = &slot[7];`
+static YACLIB_THREAD_LOCAL_PTR(int) gTlsJ{&gSlots[6]};       // 5
+
+int TlsGet(int var) {
+  int* p = nullptr;
+  switch (var) {
+    case 0: p = gTlsP.Get(); break;
+    case 1: p = gTlsQ.Get(); break;
+    case 2: p = reinterpret_cast<int*>(gTlsL.Get()); break;
+    case 3: p = gTlsN.Get(); break;
+    case 4: p = gTlsI.Get(); break;
+    default: p = gTlsJ.Get(); break;
+  }
+  return p == nullptr ? -1 : static_cast<int>(p - gSlots);
+}
+void TlsSet(int var, int val) {
+  int* p = val < 0 ? nullptr : &gSlots[val];
+  switch (var) {
+    case 0: gTlsP = p; break;
+    case 1: gTlsQ = p; break;
+    case 2: gTlsL = reinterpret_cast<long*>(p); break;
+    case 3: gTlsN = p; break;
+    case 4: gTlsI = p; break;
+    default: gTlsJ = p; break;
+  }
+}
+yaclib::detail::fiber::ThreadLocalPtrProxy<int>& TlsInt(int var) {
+  switch (var) {
+    case 0: return gTlsP;
+    case 1: return gTlsQ;
+    case 3: return gTlsN;
+    case 4: return gTlsI;
+    default: return gTlsJ;
+  }
+}
 
 struct Env {
   const Scenario* sc = nullptr;
@@ -207,8 +247,7 @@ struct Env {
   yaclib_std::condition_variable* cv = nullptr;
   yaclib_std::mutex* cvm = nullptr;
   bool flag = false;
-  int tls_expect[kMaxF];
-  int tlsq_expect[kMaxF];
+  int tls_expect[kTlsVars][kMaxF];  // what the fiber last stored to the variable (-1 null), -2 = never stored
 };
 
 std::string F(int i) { return "f" + std::to_string(i); }
@@ -332,49 +371,34 @@ void ExecCommon(Env& env, int i, const Op& op) {
     Ret("join " + std::to_string(op.a));
   } else if (k == "E") {
     vx::Ev("work");
-  } else if (k == "P") {
-    Call("tls_set " + std::to_string(op.a));
-    gTlsP = &gSlots[op.a];
-    env.tls_expect[i] = static_cast<int>(op.a);
+  } else if (k == "VS") {
+    int var = static_cast<int>(op.a / 10), val = static_cast<int>(op.a % 10);
+    if (val == 9) val = -1;
+    Call("tls_set " + std::to_string(var) + " " + std::to_string(val));
+    TlsSet(var, val);
+    env.tls_expect[var][i] = val;
     Ret("tls_set");
-  } else if (k == "G") {
-    Call("tls_get");
-    int* p = gTlsP.Get();
-    int v = p == nullptr ? -1 : static_cast<int>(p - gSlots);
-    if (v != env.tls_expect[i]) {
-      mon.Bad("tls", "thread-local pointer of f" + std::to_string(i) + " reads slot " + std::to_string(v) +
-                       " but this fiber last stored " + std::to_string(env.tls_expect[i]));
+  } else if (k == "VG") {
+    int var = static_cast<int>(op.a);
+    Call("tls_get " + std::to_string(var));
+    int v = TlsGet(var);
+    int want = env.tls_expect[var][i] == -2 ? kTlsInit[var] : env.tls_expect[var][i];
+    if (v != want) {
+      mon.Bad("tls", "thread-local pointer " + std::to_string(var) + " of f" + std::to_string(i) + " reads " +
+                       (v < 0 ? std::string("nullptr") : "slot " + std::to_string(v)) + " but " +
+                       (env.tls_expect[var][i] == -2
+                          ? "this fiber never stored to it and its initialiser is " +
+                              (want < 0 ? std::string("nullptr") : "slot " + std::to_string(want))
+                          : "this fiber last stored " + (want < 0 ? std::string("nullptr") : "slot " + std::to_string(want))));
     }
-    Ret("tls_get " + std::to_string(v));
-  } else if (k == "PQ") {
-    Call("tls_setq " + std::to_string(op.a));
-    gTlsQ = &gSlots[op.a];
-    env.tlsq_expect[i] = static_cast<int>(op.a);
-    Ret("tls_setq");
-  } else if (k == "C") {
-    // q = p (pointer copy between two thread-local pointers): must change this fiber's q only
-    Call("tls_copy");
-    gTlsQ = gTlsP;
-    env.tlsq_expect[i] = env.tls_expect[i];
+    Ret("tls_get " + std::to_string(var) + " " + std::to_string(v));
+  } else if (k == "VC") {
+    // x_dst = x_src (pointer copy between two thread-local pointers): must change this fiber's x_dst only
+    int dst = static_cast<int>(op.a / 10), src = static_cast<int>(op.a % 10);
+    Call("tls_copy " + std::to_string(dst) + " " + std::to_string(src));
+    TlsInt(dst) = TlsInt(src);
+    env.tls_expect[dst][i] = env.tls_expect[src][i] == -2 ? kTlsInit[src] : env.tls_expect[src][i];
     Ret("tls_copy");
-  } else if (k == "GL") {
-    Call("tls_getl");
-    long* p = gTlsL.Get();
-    int v = p == nullptr ? -1 : static_cast<int>(reinterpret_cast<int*>(p) - gSlots);
-    if (v != -1) {
-      mon.Bad("tls", "a thread-local pointer of another type that was never assigned reads slot " + std::to_string(v) +
-                       " (the value f" + std::to_string(i) + " stored into a different thread-local pointer)");
-    }
-    Ret("tls_getl " + std::to_string(v));
-  } else if (k == "GQ") {
-    Call("tls_getq");
-    int* p = gTlsQ.Get();
-    int v = p == nullptr ? -1 : static_cast<int>(p - gSlots);
-    if (v != env.tlsq_expect[i]) {
-      mon.Bad("tls", "second thread-local pointer of f" + std::to_string(i) + " reads slot " + std::to_string(v) +
-                       " but this fiber last stored " + std::to_string(env.tlsq_expect[i]));
-    }
-    Ret("tls_getq " + std::to_string(v));
   }
 }
 
@@ -460,7 +484,7 @@ void RunWith(const Scenario& sc, M* m, Env& env) {
       int fi = static_cast<int>(i);
       for (auto& op : sc.progs[i]) {
         const std::string& k = op.k;
-        if (k == "S" || k == "J" || k == "E" || k == "P" || k == "G" || k == "C" || k == "GQ" || k == "GL" || k == "PQ") {
+        if (k == "S" || k == "J" || k == "E" || k == "VS" || k == "VG" || k == "VC") {
           ExecCommon(env, fi, op);
         } else if (k == "W" || k == "WF" || k == "WU" || k == "WP" || k == "WPF" || k == "SF" || k == "N1" || k == "NA") {
           ExecCvOp(env, fi, op);
@@ -486,10 +510,13 @@ void RunScenario(const Scenario& sc) {
   gMon.recursive = sc.prim == "rec" || sc.prim == "rect";
   auto& ctx = *vx::gCtx;
   Env env;
-  for (int i = 0; i < kMaxF; ++i) env.tls_expect[i] = env.tlsq_expect[i] = -1;
-  // the defaults map of the thread-local proxies is process-global: forget what the previous execution left in it
-  yaclib::detail::fiber::SetDefault(nullptr, 0);
-  yaclib::detail::fiber::SetDefault(nullptr, 1);
+  for (int v = 0; v < kTlsVars; ++v)
+    for (int i = 0; i < kMaxF; ++i) env.tls_expect[v][i] = -2;
+  // the defaults map of the thread-local proxies is process-global and belongs to the constructors: put it back to the
+  // initialisers so that an execution that (wrongly) wrote it cannot disturb the next one
+  for (int v = 0; v < kTlsVars; ++v) {
+    yaclib::detail::fiber::SetDefault(kTlsInit[v] < 0 ? nullptr : &gSlots[kTlsInit[v]], static_cast<std::uint64_t>(v));
+  }
   if (sc.prim == "mutex" || sc.prim == "cv") {
     yaclib_std::mutex m;
     yaclib_std::condition_variable cv;
@@ -605,6 +632,12 @@ std::vector<Scenario> Scenarios(std::uint64_t seed, int random_count) {
   add("sharedt", {"L,S30,U", "FS10,US", "FS60,US"});
   add("sharedt", {"L,U", "FS50,US", "FS50,US", "L,U"});
   add("sharedt", {"L,S30,U", "F10,U"});
+  // an exclusive holder, a reader parked in lock_shared, a writer parked in try_lock_for, and a third-party reader that
+  // takes shared mode in the unlock window and holds past the writer's deadline: everybody must still get in
+  add("sharedt", {"L,U", "LS,US", "F40,U", "LS,S100,US"});
+  add("sharedt", {"L,U", "LS,US", "F20,U", "TS,S60,US"});
+  add("sharedt", {"L,U", "FS200,US", "F30,U", "LS,S80,US"});
+  add("shared", {"L,U", "LS,US", "L,U", "LS,S50,US"});
   // ---- ConditionVariable + Mutex
   add("cv", {"L,WP,U", "L,SF,N1,U"});
   add("cv", {"L,WP,U", "L,WP,U", "L,SF,NA,U"});
@@ -621,20 +654,49 @@ std::vector<Scenario> Scenarios(std::uint64_t seed, int random_count) {
   add("thread", {"J1,E", "J2,E", "S10,E"});
   add("thread", {"S10,E", "S10,E", "S5,S5,E"});
   add("thread", {"S0,E", "E"});
-  // ---- thread-local pointers
-  add("tls", {"G,P1,G,E,G", "G,P2,G,E,G"});
-  add("tls", {"P1,C,GQ,E,GQ", "GQ,P2,E,GQ"});
-  add("tls", {"P1,G", "P2,C,GQ,G", "G,GQ"});
-  add("tls", {"GL,P1,GL", "GL,G"});
-  add("tls", {"PQ3,GQ,P1,C,GQ", "GQ,PQ2,GQ"});  // D14 regression: own `q = p` visible over an own earlier assignment
-  add("tls", {"C,GQ,P1,C,C,GQ", "GQ"});  // `q = p` with equal values
+  // ---- thread-local pointers: VS<var><val> (val 9 = nullptr), VG<var>, VC<dst><src>; variables: 0 p, 1 q, 2 long*, 3 n,
+  //      4 i = &slot[7], 5 j = &slot[6]
+  add("tls", {"VG0,VS1,VG0,E,VG0", "VG0,VS2,VG0,E,VG0"});
+  add("tls", {"VS1,VC10,VG1,E,VG1", "VG1,VS2,E,VG1"});            // D14 regression (33c5ab3)
+  add("tls", {"VS1,VG0", "VS2,VC10,VG1,VG0", "VG0,VG1"});
+  add("tls", {"VG2,VS1,VG2", "VG2,VG0"});                          // D13 regression (33c5ab3)
+  add("tls", {"VS13,VG1,VS1,VC10,VG1", "VG1,VS12,VG1"});          // D14 regression: own copy over an own earlier store
+  add("tls", {"VC10,VG1,VS1,VC10,VC10,VG1", "VG1"});              // copies of equal values
+  add("tls", {"VG4,VS49,VG4,E,VG4", "VG4,VS42,VG4,VS49,VG4"});    // nullptr stored to a variable with a non-null initialiser
+  add("tls", {"VG4,VC43,VG4,VG5,VC54,VG5", "VG5,VS59,VG5,VG4"});  // … by copy from a null thread-local, and from a nulled one
+  add("tls", {"VS41,VC54,VG5,VS49,VC54,VG5", "VG4,VG5,VS53,VG5"});
+  add("tls", {"VS29,VG2,VS21,VG2", "VG2"});
+  add("tls", {"VS9,VG0,VS1,VS9,VG0,VC30,VG3", "VG0,VG3"});
   // ---- random balanced programs
   vx::SplitMix rng{seed * 0x9e3779b97f4a7c15ULL + 18};
-  const char* prims[] = {"mutex", "timed", "rec", "rect", "shared", "sharedt", "cv"};
+  const char* prims[] = {"mutex", "timed", "rec", "rect", "shared", "sharedt", "cv", "tls"};
   for (int r = 0; r < random_count; ++r) {
     Scenario sc;
-    sc.prim = prims[rng.below(7)];
+    sc.prim = prims[rng.below(8)];
     int nf = 2 + static_cast<int>(rng.below(2));
+    if (sc.prim == "tls") {
+      const int vars[] = {0, 1, 3, 4, 5};
+      for (int f = 0; f < nf; ++f) {
+        std::vector<Op> ops;
+        int len = 4 + static_cast<int>(rng.below(4));
+        for (int o = 0; o < len; ++o) {
+          int v = vars[rng.below(5)];
+          std::uint64_t what = rng.below(5);
+          if (what < 2) {
+            ops.push_back({"VG", v});
+          } else if (what < 4) {
+            ops.push_back({"VS", v * 10 + (rng.below(3) == 0 ? 9 : static_cast<long>(rng.below(6)))});
+          } else {
+            ops.push_back({"VC", v * 10 + vars[rng.below(5)]});
+          }
+        }
+        ops.push_back({"VG", 4});
+        ops.push_back({"VG", 5});
+        sc.progs.push_back(ops);
+      }
+      out.push_back(sc);
+      continue;
+    }
     bool timed = sc.prim == "timed" || sc.prim == "rect" || sc.prim == "sharedt";
     bool shared = sc.prim == "shared" || sc.prim == "sharedt";
     bool rec = sc.prim == "rec" || sc.prim == "rect";
